@@ -38,7 +38,7 @@ def faultRes : Option Fault → Res
 
 def emptySnap : Snap :=
   { rts := [], now := 0, normal := 0, padding := 0, blockingNs := 0, blockingStarted := 0,
-    blockingActive := false, signalPending := none, zeroedA := false, zeroedB := false }
+    blockingActive := false, signalPending := none }
 
 def parseFwCase (c : CaseBlock) : Except String FwCaseParsed := do
   let ms ← (c.header.filter (fun ws => ws.head? == some "m")).mapM (fun ws => match ws with
@@ -129,8 +129,9 @@ def diffSnap (a b : Snap) : List String :=
   let t4 := if (a.rts.map fun r => r.blockingNs) != (b.rts.map fun r => r.blockingNs) then ["RB"] else []
   let t5 := if (a.now, a.normal, a.padding, a.blockingNs, a.blockingStarted, a.blockingActive)
              != (b.now, b.normal, b.padding, b.blockingNs, b.blockingStarted, b.blockingActive) then ["G"] else []
-  let t6 := if (a.signalPending, a.zeroedA, a.zeroedB) != (b.signalPending, b.zeroedA, b.zeroedB) then ["GS"] else []
-  t1 ++ t2 ++ t3 ++ t4 ++ t5 ++ t6
+  let t6 := if a.signalPending != b.signalPending then ["GS"] else []
+  let t7 := if (a.rts.map fun r => (r.zeroedA, r.zeroedB)) != (b.rts.map fun r => (r.zeroedA, r.zeroedB)) then ["RZ"] else []
+  t1 ++ t2 ++ t3 ++ t4 ++ t5 ++ t6 ++ t7
 
 def diffCall (a b : CallRec) : List String :=
   let t0 := if a.res != b.res then ["res"] else []
